@@ -55,11 +55,14 @@ static void drop_iters(actx *c)
     if (c->ait) { vh_ctx("alignment_iter_free"); alignment_iter_free(c->ait); c->ait = NULL; LOG(c, "alignment_iter_free "); }
 }
 
+static const char *tagged_jsgf[2] = { "#JSGF V1.0; grammar t; public <t> = go {act} ( forward {dir} | backward {dir} ) [ ten {n} {m} ] <u>; <u> = meters {unit} | <NULL> {nothing};",
+                                      "#JSGF V1.0; grammar t; public <t> = avance {act} de {p} ( dix {n} | deux {n} ) [ mètres {unit} ];" };
 static void op_grammar(actx *c)
 {
     vd_gram g; int rv, how = (int)vh_below(c->r, 5);
     drop_iters(c);
     vd_gram_random(c->r, c->lang, how == 4 ? VG_JSGF_SLOTS : -1, 0.6, &g);
+    if (vh_chance(c->r, 0.1)) { vh_sb_reset(&g.text); vh_sb_printf(&g.text, "%s", tagged_jsgf[c->lang]); g.kind = VG_JSGF_SLOTS; vh_count("tagged_grammars", 1); }
     if (how == 4 && (g.kind == VG_JSGF_SLOTS || g.kind == VG_JSGF_RIGHTLINEAR)) {
         char *path = vh_path("%s/g%ld.gram", vh_tmpdir(), vh_case);
         vh_write_file(path, g.text.s, g.text.n);
@@ -247,6 +250,7 @@ static void op_standalone(actx *c)
         vd_gram_free(&g); LOG(c, "fsg_standalone ");
     } else if (k == 1) {
         vd_gram g; jsgf_t *j; vd_gram_random(c->r, c->lang, VG_JSGF_SLOTS, 0.5, &g);
+        if (vh_chance(c->r, 0.4)) { vh_sb_reset(&g.text); vh_sb_printf(&g.text, "%s", tagged_jsgf[c->lang]); vh_count("tagged_grammars", 1); }
         vh_ctx("jsgf_parse_string"); j = jsgf_parse_string(g.text.s, NULL);
         if (j) { jsgf_rule_t *ru = jsgf_get_public_rule(j); if (ru) { fsg_model_t *f; (void)jsgf_rule_name(ru); vh_ctx("jsgf_build_fsg"); f = jsgf_build_fsg(j, ru, decoder_logmath(c->d), 2.0f); if (f) fsg_model_free(f); } vh_ctx("jsgf_grammar_free"); jsgf_grammar_free(j); }
         vd_gram_free(&g); LOG(c, "jsgf_standalone ");
